@@ -1,6 +1,7 @@
 package refstore
 
 import (
+	"context"
 	"sync"
 	"time"
 
@@ -47,4 +48,116 @@ func (s *Store) extKeepSame(old *RefreshToken, request op.TokenRequest) (string,
 	old.Scopes = request.GetScopes()
 	old.AccessToken = t.ID
 	return t.ID, old.ID, t.Expiration, nil
+}
+
+// C07 / C04: the STYLE in which a storage reports a refused lookup. op.Storage says nothing about
+// the first result when the error is non-nil; storages exist that return what they know together
+// with the error (the grant of a replayed / rotated / revoked refresh token for reuse detection,
+// the request of an already redeemed code, the registration of a client whose lookup timed out).
+// AsLoudStorage is AsStorage(true, true, true) whose lookups never return a nil first result:
+// on a refusal they hand back the last value they successfully returned for that key (or what
+// the store still holds, or a blank object) NEXT TO the unchanged error. The framework must go
+// by the error. Journal and fault injection are those of the wrapped store.
+type LoudStorage struct {
+	*Store
+	CC
+	TE
+	Dev
+	mu    *sync.Mutex
+	rts   map[string]*RefreshToken
+	codes map[string]*AuthRequest
+	reqs  map[string]*AuthRequest
+}
+
+func (s *Store) AsLoudStorage() op.Storage {
+	return LoudStorage{Store: s, CC: CC{s}, TE: TE{s}, Dev: Dev{s}, mu: &sync.Mutex{},
+		rts: map[string]*RefreshToken{}, codes: map[string]*AuthRequest{}, reqs: map[string]*AuthRequest{}}
+}
+
+func (l LoudStorage) TokenRequestByRefreshToken(ctx context.Context, token string) (op.RefreshTokenRequest, error) {
+	r, err := l.Store.TokenRequestByRefreshToken(ctx, token)
+	l.mu.Lock()
+	defer l.mu.Unlock()
+	if err == nil {
+		if rr, ok := r.(*refreshRequest); ok {
+			cp := *rr.t
+			cp.Scopes = append([]string{}, rr.t.Scopes...)
+			l.rts[token] = &cp
+		}
+		return r, nil
+	}
+	t, ok := l.rts[token]
+	if !ok {
+		t = &RefreshToken{ID: token}
+	}
+	cp := *t
+	return &refreshRequest{t: &cp, scopes: cp.Scopes}, err
+}
+
+func (l LoudStorage) AuthRequestByCode(ctx context.Context, code string) (op.AuthRequest, error) {
+	r, err := l.Store.AuthRequestByCode(ctx, code)
+	l.mu.Lock()
+	defer l.mu.Unlock()
+	if err == nil {
+		if ar, ok := r.(*AuthRequest); ok {
+			cp := *ar
+			l.codes[code] = &cp
+		}
+		return r, nil
+	}
+	l.Store.mu.Lock()
+	if id, ok := l.Store.Codes[code]; ok { // e.g. an injected failure: the store still holds it
+		if ar, ok := l.Store.AuthReqs[id]; ok {
+			l.Store.mu.Unlock()
+			return ar, err
+		}
+	}
+	l.Store.mu.Unlock()
+	if ar, ok := l.codes[code]; ok {
+		cp := *ar
+		return &cp, err
+	}
+	return &AuthRequest{}, err
+}
+
+func (l LoudStorage) AuthRequestByID(ctx context.Context, id string) (op.AuthRequest, error) {
+	r, err := l.Store.AuthRequestByID(ctx, id)
+	l.mu.Lock()
+	defer l.mu.Unlock()
+	if err == nil {
+		if ar, ok := r.(*AuthRequest); ok {
+			cp := *ar
+			l.reqs[id] = &cp
+		}
+		return r, nil
+	}
+	if ar, ok := l.reqs[id]; ok {
+		cp := *ar
+		return &cp, err
+	}
+	return &AuthRequest{ID: id}, err
+}
+
+func (l LoudStorage) GetClientByClientID(ctx context.Context, id string) (op.Client, error) {
+	c, err := l.Store.GetClientByClientID(ctx, id)
+	if err == nil {
+		return c, nil
+	}
+	l.Store.mu.Lock()
+	defer l.Store.mu.Unlock()
+	if reg, ok := l.Store.Clients[id]; ok {
+		return reg.View(), err
+	}
+	return (&Client{ID: id}).View(), err
+}
+
+// ExpireRefreshToken (test side) lets a stored refresh token expire - or, with no record left,
+// does nothing: TokenRequestByRefreshToken refuses it from now on. The record stays in the store
+// (as in storages that keep expired / revoked tokens for reuse detection).
+func (s *Store) ExpireRefreshToken(id string) {
+	s.mu.Lock()
+	defer s.mu.Unlock()
+	if t, ok := s.Refresh[id]; ok {
+		t.Expiration = time.Now().Add(-time.Hour)
+	}
 }
